@@ -63,8 +63,12 @@ ORDER(Vector2, SETV2, SAME2)
 ORDER(Vector3, SETV3, SAME3)
 ORDER(Vector4, SETV4, SAME4)
 
-/* ---- lemma over the contracts of cross and dot: a x b is orthogonal to a and to b.  Stated for element types without
- *      undefined overflow (unsigned T): the identity a.(a x b) = 0 is a polynomial identity, so it holds in Z/2^n. */
+/* ---- composition executed on the real text of both functions (no contract replacement): a.dot(a.cross(b)) == 0 and
+ *      b.dot(a.cross(b)) == 0 with phosg's own dot().  Stated for element types without undefined overflow (unsigned T):
+ *      a.(a x b) = 0 is a polynomial identity, so it holds in Z/2^n.  (Over the *contracts* of cross and dot the same
+ *      assertion is not decided: the ensures equalities become hypotheses of an implication, cvc5 no longer normalises the
+ *      polynomial and bit-blasting 64-bit multipliers does not terminate; the ensures clause ORTH of Vector3_cross in
+ *      contracts/C20_vec.h is the contract-level statement.) */
 void l_cross_orthogonal(void) {
   T in_a[4], in_b[4]; Vector3 a, b; SETV3(a, in_a); SETV3(b, in_b);
   Vector3 c = (GS(in_a, in_b), Vector3_cross(&a, &b));
